@@ -433,3 +433,67 @@ def run_sni_cache(run, P, field='sni'):
                                   '`%s` compares a cached server name over a bounded number of bytes: a name that is a prefix of a cached one (or an absent name, length 0) '
                                   'counts as cached, the application\'s SNI validation is skipped and the other name\'s credentials are used' % short(x)[:70], [])
     run.require_count(n >= (2 if run.cfg == 'base' else 0) or run.fixture_mode, 'R-PSK-VERDICT(sni cache): fewer than 2 comparisons against a cached server name found')
+
+
+CONNECTED = 'coap_session_connected'
+ESTABLISH_EXCEPTIONS = {
+    'coap_session_establish': 'end of the layer establish chain: a layer calls the next layer\'s establish slot only once it is established itself '
+                              '(the TLS layer\'s own gate is R-ROUTE\'s handshake clause); it promotes datagram sessions only (COAP_PROTO_NOT_RELIABLE tested)',
+}
+
+
+def run_establishers(run, P, backend_units=('coap_gnutls.c', 'coap_openssl.c', 'coap_mbedtls.c', 'coap_tinydtls.c', 'coap_wolfssl.c', 'coap_notls.c')):
+    """R-ROUTE (who may establish): coap_session_connected() is the only place that sets `state = ESTABLISHED`, after which coap_send_pdu()
+    transmits instead of queueing.  Outside the (D)TLS back end (whose calls are gated on the handshake result by the clause above) it is called
+    only on paths that know the session already ESTABLISHED (the flush after an exchange completed) or in state CSM (reached only through the
+    layer chain after the transport - and TLS - came up), or for a multicast node (UDP only: no handshake).  A call decided by anything else -
+    the protocol class, a timer - promotes a session that is still CONNECTING or in the middle of the handshake: what was queued goes out or
+    is dropped without the handshake having completed."""
+    from core.facts import AnalysisBroken
+    run.rule('R-ROUTE')
+    csm = P.const_named('COAP_SESSION_STATE_CSM')
+    est = P.const_named('COAP_SESSION_STATE_ESTABLISHED')
+    if not (csm < est):
+        raise AnalysisBroken('R-ROUTE (who may establish): state constants are not ordered CSM < ESTABLISHED')
+    n = 0
+    for f in sorted(P.lib_funcs(), key=lambda f: f['name']):
+        if f['unit'] in backend_units or f['name'] == CONNECTED:
+            continue
+        sites = [ev for b, ev in P.events(f) if ev['e'].get('k') == 'call' and ev['e'].get('fn') == CONNECTED and ev.get('top') and ev['e'].get('a')]
+        if not sites:
+            continue
+        name = f['name']
+        for ev in sites:
+            n += 1
+            run.instance('R-ROUTE', '%s: %s' % (name, short(ev['e'])))
+        if name in ESTABLISH_EXCEPTIONS:
+            run.notes.append('R-ROUTE (who may establish) exception %s: %s' % (name, ESTABLISH_EXCEPTIONS[name]))
+            continue
+        states = set()
+        for ev in sites:
+            a = ap(ev['e']['a'][0])
+            if a:
+                states.add(a + '->state')
+        rep = set()
+
+        def on_event(ev, env, ctx):
+            if not any(ev is s for s in sites):
+                return None
+            a = ap(ev['e']['a'][0])
+            lo, hi, ex = env.intf(a + '->state') if a else (-INF, INF, frozenset())
+            ok = lo >= csm and hi <= est
+            if not ok and a:
+                # multicast node: `if (node->is_mcast)` with the session taken from that node
+                for k, v in env.ints.items():
+                    if k.endswith('->is_mcast') and a.startswith(k[:-len('->is_mcast')]) and (v[0] >= 1 or 0 in v[2]):
+                        ok = True
+            run.oblige('R-ROUTE', ok, '%s:establish-known-state' % name)
+            if not ok and ev['loc'] not in rep:
+                rep.add(ev['loc'])
+                run.violation('R-ROUTE', name, ev['loc'], 'established-without-known-state',
+                              'coap_session_connected() is reached on a path that knows neither state == ESTABLISHED nor state == CSM for that session (state %s here): '
+                              'a session that is still connecting or in the middle of the (D)TLS handshake is promoted to ESTABLISHED, and what the application queued is '
+                              'then transmitted or dropped although no handshake completed' % ('in [%s, %s]' % (lo, hi)), ctx.path())
+            return None
+        solve(f, Env(), on_event, None, None, None, key_fn=lambda e: tuple(sorted((k, e.intf(k)) for k in states)) + tuple(sorted((k, v[0] >= 1 or 0 in v[2]) for k, v in e.ints.items() if k.endswith('->is_mcast'))), max_envs=512)
+    run.require_count(n >= (8 if run.cfg == 'base' else 1) or run.fixture_mode, 'R-ROUTE (who may establish): fewer than 8 calls of coap_session_connected() outside the TLS back end')
